@@ -22,6 +22,9 @@ func C06mitccrh(p *load.Program, run *report.Run) {
 		batch, k, h, stride, pad int64
 		ok                       bool
 		why                      string
+		// scope: "per-call" when the hash object is created unconditionally at the top level of the
+		// role function and kept in a local; anything else (a field, a conditional creation) persists
+		scope string
 	}
 	extract := func(recv, name string) shape {
 		_, fd := dispatch.FindFunc(p, "ot", recv, name)
@@ -31,6 +34,21 @@ func C06mitccrh(p *load.Program, run *report.Run) {
 			return s
 		}
 		padVar := ""
+		s.scope = "none"
+		for _, st := range effectiveQ(pkg.TypesInfo, fd.Body.List) {
+			if as, ok := st.(*ast.AssignStmt); ok && len(as.Rhs) == 1 && len(as.Lhs) == 1 {
+				if c, ok := as.Rhs[0].(*ast.CallExpr); ok {
+					if _, nm, _ := callName(c); nm == "NewMITCCRH" {
+						if _, isLocal := as.Lhs[0].(*ast.Ident); isLocal {
+							s.scope = "per-call"
+						}
+					}
+				}
+			}
+		}
+		if s.scope == "none" && containsCall(fd.Body, "NewMITCCRH") {
+			s.scope = "persistent"
+		}
 		ast.Inspect(fd.Body, func(n ast.Node) bool {
 			switch t := n.(type) {
 			case *ast.CallExpr:
@@ -84,6 +102,8 @@ func C06mitccrh(p *load.Program, run *report.Run) {
 		key := fmt.Sprintf("ot.%s.%s/%s", pr[0], pr[1], pr[2])
 		run.Count("mitccrh-pairs", 1)
 		switch {
+		case snd.scope != rcv.scope:
+			run.Violate("mitccrh-schedule", key, "", fmt.Sprintf("the sender's hash object is %s, the receiver's %s: the tweak counter of one side runs on over batches while the other restarts, so every batch after the first derives different pads", snd.scope, rcv.scope), nil)
 		case !snd.ok || !rcv.ok:
 			run.Undecided("mitccrh-schedule", key, "", "sender: "+snd.why+"; receiver: "+rcv.why)
 		case snd.batch != rcv.batch:
